@@ -280,7 +280,7 @@ def run_rule_pipeline(ctx: Ctx, res: Result, roles: dict[str, str] | None) -> No
         o = hits[0]
         k = rewritten_under(sym, o, want, keys)
         others = f_and([f_not(w2) for _r, l2, w2, _k in wants if l2 != label])
-        rejected_somewhere = any(sat(f_and([r.cond, want, others])) or sat(f_and([r.cond, want])) and rid != "C13.R7" for r in rej)
+        rejected_somewhere = any((atoms_of(want) & atoms_of(r.cond)) and (sat(f_and([r.cond, want, others])) or sat(f_and([r.cond, want])) and rid != "C13.R7") for r in rej)
         if k is not None:
             rule_id = "C13.R1"
             detail = f"`{k.split('.')[-1]}` is rewritten before the check that must see the caller's value: with {label} (`{show(want)}`) {describe_outcome(o)} is reached - the invalid specification is evaluated instead of rejected"
